@@ -3,7 +3,7 @@ import harness_build
 from checks import exprun, runner, saferun
 
 LEVEL = "proof"
-CONST_DIMS = [0, 1, 3, 8, 17, 33, 65, 130]
+CONST_DIMS = [0, 1, 3, 7, 8, 13, 17, 33, 65, 130]
 # (type, register, kernel, element bit patterns): fallback min over +0 / -0 / tiny values - f64::min left the sign of the zero
 # unspecified and xconst::<8> returned -0 where xany returned +0 (fixed by bf17999)
 REGRESSIONS = [
@@ -16,6 +16,20 @@ REGRESSIONS = [
      [0x8000000000000000, 0x8010000000000000, 0x0000000000000000, 0xbca0000000000000,
       0x0000000000000000, 0x800fffffffffffff, 0xbca0000000000000, 0x0000000000000000]),
 ]
+
+
+def nonfinite(line):
+    """does an `ok ...` result line contain a NaN or an infinity (f32 / f64 bit patterns in hex, `nan` for NaN)?"""
+    if not line or not line.startswith("ok"):
+        return False
+    for t in line.split()[1:]:
+        if t == "nan":
+            return True
+        if len(t) == 8 and t.lower()[:3] in ("7f8", "ff8") and t.lower()[3:] == "00000":
+            return True
+        if len(t) == 16 and t.lower()[:4] in ("7ff0", "fff0") and t.lower()[4:] == "0" * 12:
+            return True
+    return False
 
 
 def run(ctx):
@@ -65,6 +79,11 @@ def run(ctx):
             # reductions / divisions (FastMath: algebraic operations the optimiser may reassociate per instantiation) are held
             # to the tolerance of lines_agree
             strict = config != "nightly" or e["ty"][0] != "f" or e["op"] in exprun.MINMAX
+            if not strict and (cls != "random" or nonfinite(xc) or nonfinite(xa)):
+                # nightly = FastMath: a float reduction over ill-conditioned data (overflowing terms, infinities, NaN, massive
+                # cancellation: the special classes) may be reassociated differently per instantiation; outside "the default
+                # math" of the property - the two forms are compared on the well-conditioned random class only
+                continue
             if (xc != xa) if strict else (not exprun.lines_agree(xc, xa, e, config, n)):
                 bad += 1
                 ctx.violation("const-any:%s" % e["xconst"],
@@ -89,12 +108,15 @@ def run(ctx):
     entries = list(enumerate(facts.get("safe_entries", [])))
     for config, masks in (("stable", [0, 2, 6]), ("nightly", [0])):
         mism = [(0, 0, 0, 0), (0, 1, 0, 0), (0, 0, 1, 0)]
-        lens = CONST_DIMS if thorough else [0, 1, 3, 17, 65]
+        lens = CONST_DIMS if thorough else [0, 1, 3, 7, 13, 17, 65]
         cases, meta = saferun.gen_safe_cases(ctx, facts, config, entries, lens, mism, masks, forms=("a",), seed_tag=13)
         # special values (signed zeros, NaN, infinities, subnormals; integer boundaries) on documented calls: a shortcut
         # taken by only one of the two forms shows on such data (e.g. -0.0 or NaN in a one-element reduction)
-        for cls, tag in (("special", 131), ("boundary", 132)):
-            c2, m2 = saferun.gen_safe_cases(ctx, facts, config, entries, [0, 1, 3, 8, 17], [(0, 0, 0, 0)], masks[:1], forms=("a",),
+        # (7 and 13: lengths whose split into register part and scalar tail differs between the 4-, 8- and 16-lane back ends, so a
+        # slot of one form wired to another back end's routine shows on NaN / signed-zero operands)
+        special_from = len(cases)
+        for cls, tag in (("special", 131), ("boundary", 132), ("specialnan", 133), ("signedzeros", 134)):
+            c2, m2 = saferun.gen_safe_cases(ctx, facts, config, entries, [0, 1, 3, 7, 8, 13, 17], [(0, 0, 0, 0)], masks[:1], forms=("a",),
                                             cls=cls, seed_tag=tag)
             cases, meta = cases + c2, meta + m2
         # DIMS = 1 exhaustively over the special float values (signed zeros, subnormals, infinities, NaN, extremes): a
@@ -127,7 +149,7 @@ def run(ctx):
         ia = runner.impl("safe", cases, config=config)
         ic = runner.impl("safe", cases_c, config=config)
         bad = 0
-        for ca, cc, m, xa, xc in zip(cases, cases_c, meta, ia, ic):
+        for ci, (ca, cc, m, xa, xc) in enumerate(zip(cases, cases_c, meta, ia, ic)):
             sidx, s, form, n, delta, mask = m
             e = {"op": "generic_max_vertical" if ("max" in s["any"] or "min" in s["any"]) else
                  ("generic_div_value" if "div" in s["any"] else ("generic_sum" if s["macro"] in ("export_safe_distance_op", "export_safe_fma_norm_op", "export_safe_horizontal_op") else "x")),
@@ -136,6 +158,8 @@ def run(ctx):
             # reductions / divisions (FastMath: algebraic operations the optimiser may reassociate per instantiation) are held
             # to the tolerance of lines_agree
             strict = config != "nightly" or e["ty"][0] != "f" or e["op"] in exprun.MINMAX
+            if not strict and (ci >= special_from or nonfinite(xc) or nonfinite(xa)):
+                continue
             if (xc != xa) if strict else (not exprun.lines_agree(xc, xa, e, config, n)):
                 bad += 1
                 ctx.violation("safe-const-any:%s" % s["const"],
